@@ -80,8 +80,10 @@ CHECKS = {
         note=NOTE + " C02 specifically: the theorems are about the component models and the Space/Pt model; that a real "
              "simulation's step is a history of component calls is proved for the five modelled example classes "
              "(Props/Examples.lean), for MultiCorridor, MultiAgentGridSim, ReachTheTargetSim (every reachable state, "
-             "Props/Reach.lean) and in part for the two pacman classes (Props/Pacman.lean); gymnasium's `contains` and the "
-             "comms_blocking example (hand-written observers / components) are monitored at run time, not proved; rejected "
+             "Props/Reach.lean), in part for the two pacman classes (Props/Pacman.lean) and for BroadcastSim of "
+             "comms_blocking.py (Props/Broadcast.lean: invariant, observations, no-raise under BC.cfgHypb, reset forgets, "
+             "soundness of delivery; float64 messages tied per call within 2^-40; completeness of delivery judged at run "
+             "time by BC.specBC); gymnasium's `contains` is monitored at run time, not proved; rejected "
              "assignments through every public setter of every component of a session (harness/poke.py) must leave what was "
              "configured in force; how a Python value is read as a "
              "point (harness/c02sims.py dump_point) is harness code; C02-E1 (the comms_blocking example's "
